@@ -2,6 +2,8 @@ package driver
 
 import (
 	"flag"
+	"runtime/debug"
+	"runtime/pprof"
 	"fmt"
 	"os"
 	"strconv"
@@ -19,6 +21,7 @@ func verifDir() string {
 
 // Main is the entry point of the gosym command.
 func Main(args []string) int {
+	debug.SetGCPercent(400)
 	if len(args) == 0 {
 		fmt.Fprintln(os.Stderr, "usage: gosym run <pkg> <func> [int args...] | gosym check <ID> quick|thorough")
 		return 2
@@ -41,7 +44,13 @@ func cmdRun(args []string) int {
 	precise := fs.Bool("poolprecise", false, "precise sync.Pool model")
 	spin := fs.Int("spin", 3, "spin cut")
 	secs := fs.Int("t", 600, "time limit (s)")
+	prof := fs.String("cpuprofile", "", "write cpu profile")
 	fs.Parse(args)
+	if *prof != "" {
+		f, _ := os.Create(*prof)
+		pprof.StartCPUProfile(f)
+		defer pprof.StopCPUProfile()
+	}
 	rest := fs.Args()
 	if len(rest) < 2 {
 		fmt.Fprintln(os.Stderr, "usage: gosym run [-trace] <pkg-suffix> <func> [int args...]")
